@@ -154,6 +154,9 @@ pub fn shuffle<T>(label: &'static str, v: &mut [T]) {
 }
 
 pub fn fault(kind: &'static str) {
+    if !installed() {
+        return;
+    }
     with(|c| {
         *c.faults.entry(kind).or_insert(0) += 1;
         c.nontrivial = true;
@@ -163,24 +166,39 @@ pub fn fault(kind: &'static str) {
 }
 
 pub fn probe(name: &'static str) {
+    if !installed() {
+        return;
+    }
     with(|c| {
         *c.probes.entry(name).or_insert(0) += 1;
     });
 }
 
 pub fn mark_nontrivial() {
+    if !installed() {
+        return;
+    }
     with(|c| c.nontrivial = true);
 }
 
 pub fn add_sim_time_us(us: u64) {
+    if !installed() {
+        return;
+    }
     with(|c| c.sim_time_us += us);
 }
 
 pub fn add_steps(n: u64) {
+    if !installed() {
+        return;
+    }
     with(|c| c.steps += n);
 }
 
 pub fn count_fallback() {
+    if !installed() {
+        return;
+    }
     with(|c| c.fallback_classifications += 1);
 }
 
@@ -194,6 +212,9 @@ fn fp_update(c: &mut RunCtx, bytes: &[u8]) {
 }
 
 pub fn event(s: String) {
+    if !installed() {
+        return;
+    }
     with(|c| {
         fp_update(c, s.as_bytes());
         fp_update(c, b"\n");
